@@ -570,9 +570,17 @@ void regfree(regex_t *preg)
 	free(re);
 }
 
+#ifdef NEATVI_VERIF
+int neatvi_verif_cuts;		/* times the recursion-depth limit cut a branch */
+#endif
+
 static int re_rec(struct regex *re, struct rstate *rs)
 {
 	struct rinst *ri = NULL;
+#ifdef NEATVI_VERIF
+	if (rs->dep >= NDEPT)
+		neatvi_verif_cuts++;
+#endif
 	if (rs->dep >= NDEPT)
 		return 1;
 	rs->dep++;
